@@ -487,7 +487,7 @@ def gen_input(rng, big=False):
     nq = rng.choice([1, 2, 3, 3, 4, 4, 5, 6])
     nc = rng.choice([0, 0, 1, 2, 3])
     nops = rng.choice([0, 1, 2, 3, 5, 8, 12] + ([20, 30] if big else []))
-    wild = rng.random() < 0.15
+    wild = rng.random() < 0.25
     ops = [gen_op(rng, nq, nc, wild) for _ in range(nops)]
     st = gen_style(rng)
     if rng.random() < 0.3:
@@ -529,6 +529,8 @@ def directed_inputs():
                     style=S(align=True, ext=0)))
     out.append(dict(nq=4, nc=0, ops=[g("CCU", [0], [1, 2]), g("CCU", [3], [0, 1]), g("CCU", [1], [0, 3], "odd")], style={}))
     out.append(dict(nq=3, nc=0, ops=[g("U3Q", [0, 1, 2]), g("U3Q", [2, 0, 1], [], "abc"), g("X", [1], [])], style=S(gate_pad=[2, 1])))
+    # two-digit default labels (q10, q11): the decimal printer of the model
+    out.append(dict(nq=12, nc=1, ops=[g("CNOT", [11], [9]), g("H", [10]), m(11, 0), g("SWAP", [0, 10])], style={}))
     return out
 
 
@@ -593,6 +595,31 @@ def correspond(ctx):
             corr.tally(op_shape(o)["kind"])
         if in_known_class(inp, ops):
             corr.tally("in-noncontiguous-class")
+        for o in ops:
+            if o["k"] == "gate" and o.get("controls") and op_shape(o)["kind"] == "multi":
+                t, c = o["targets"], o["controls"]
+                if min(c) < min(t) and max(c) > max(t):
+                    corr.tally("branch:controls-on-both-sides")
+                if any(min(t) < v < max(t) for v in c):
+                    corr.tally("branch:control-inside-box")
+                if len(c) > 1 and (sorted(c)[1] < min(t) or sorted(c)[-2] > max(t)):
+                    corr.tally("branch:middle-control-on-bridge")
+                if (4 + 2 * gate_pad_cells(inp["style"]) + len(op_text(o))) % 2:
+                    corr.tally("branch:odd-width-bridge")
+            if o["k"] == "gate" and o.get("controls") == []:
+                corr.tally("branch:empty-control-list")
+            if o["k"] == "gate" and o.get("arg_label") is not None:
+                corr.tally("branch:arg_label")
+        st = inp["style"]
+        for k in ("align", "wire_label"):
+            if st.get(k):
+                corr.tally("style:" + k)
+        if st.get("gate_pad") and st["gate_pad"][0] == 0:
+            corr.tally("style:gate_pad=0")
+        if st.get("ext") == 0:
+            corr.tally("style:end_wire_ext=0")
+        if any(o.get("cc") for o in inp["ops"] if o["k"] == "gate"):
+            corr.tally("classically-controlled")
         corr.tally("wires=%d" % (inp["nq"] + inp["nc"]))
         dm = decode_model(mv)
         if not r["ok"]:
